@@ -25,6 +25,9 @@ var (
 	tExp   = time.Date(2024, 9, 1, 0, 0, 0, 0, time.UTC) // expirationDate
 	skew   = 5 * time.Second                              // the clock skew the node documents (verifier.maxSkew)
 	probes = []time.Duration{0, time.Second, 4 * time.Second, 5 * time.Second, 6 * time.Second, 11 * time.Second, time.Minute, time.Hour, 25 * time.Hour}
+	// additional offsets of the thorough tier
+	moreProbes = []time.Duration{time.Millisecond, 999 * time.Millisecond, 2 * time.Second, 3 * time.Second, 4999 * time.Millisecond, 5001 * time.Millisecond, 7 * time.Second, 9 * time.Second,
+		10 * time.Second, 12 * time.Second, 15 * time.Second, 30 * time.Second, 51 * time.Second, 5 * time.Minute, 15 * time.Minute, 24 * time.Hour, 7 * 24 * time.Hour, 366 * 24 * time.Hour}
 )
 
 type history struct {
@@ -89,6 +92,9 @@ func TestVerifC01Grid(t *testing.T) {
 	replay := r.ReplayCase(&rc)
 	if !replay && os.Getenv("VERIF_REPLAY") != "" {
 		return
+	}
+	if r.Thorough() {
+		probes = append(probes, moreProbes...)
 	}
 	e := newEnv(t)
 	e2 := newEnv(t) // a node that cannot resolve any of the issuers (history "unknown DID")
@@ -185,7 +191,10 @@ func TestVerifC01Grid(t *testing.T) {
 							continue // the issuer can no longer sign a revocation
 						}
 						if err := revoke(e, cred); err != nil {
-							t.Fatalf("harness: revoke (%s): %v", h.name, err)
+							// converse clause: a revocation the node's own issuer produces verifies
+							r.Violation("C01|converse|revocation|"+h.name, fmt.Sprintf("the revocation built by the node's own issuer (issuer history %s) is refused by the verifier: %v", h.name, err),
+								gridCase{History: h.name, Format: format, Expiry: expiry, Kind: "vc", Revoked: true})
+							continue
 						}
 					}
 					for _, trust := range []string{"trusted", "untrusted", "untrusted-allowed"} {
@@ -230,7 +239,7 @@ func TestVerifC01Grid(t *testing.T) {
 									gridCase{History: h.name, Format: format, Expiry: expiry, At: atS, Revoked: revoked, Trust: trust, Kind: "vc"})
 							}
 							if err != nil && want {
-								r.Observation("grid-acceptable-refused|"+h.name+"|"+format, fmt.Sprintf("at %s: %v", relTime(eff), err))
+								r.Observation("grid-acceptable-refused|"+format+"|"+firstWords(strings.Split(err.Error(), "(")[0]), fmt.Sprintf("history %s at %s: %v", h.name, relTime(eff), err))
 							}
 						}
 					}
